@@ -84,6 +84,14 @@ AcceptConv ==
   /\ Ev.r.k = "val" /\ FrameOK(Ev.r.v)
   /\ GridFrameOK(Ev.r.v, ConvOutOr(SrcV, Depth, n, ZeroFrame), peak)     \* output n = source frame n - depth
   /\ Ev.o.pulls = ConvPulled(n)
+\* `tail{m}`: the converter consumed through the provided Signal::take(m) on the concrete type: exactly m more
+\* outputs n, n+1, ..., the same sequence next() yields, one source frame pulled per output
+AcceptTail ==
+  /\ Ev.a.m >= 1 /\ Ev.r.k = "items" /\ Len(Ev.r.v) = Ev.a.m
+  /\ \A i \in 1..Len(Ev.r.v) :
+       /\ FrameOK(Ev.r.v[i])
+       /\ GridFrameOK(Ev.r.v[i], ConvOutOr(SrcV, Depth, n + i - 1, ZeroFrame), peak)
+  /\ Ev.o.pulls = ConvPulled(n + Ev.a.m - 1)
 
 Eps == DPow2(1 - FF.p)                                                    \* 2^-52 / 2^-23
 AcceptLin ==
@@ -141,18 +149,23 @@ TConv == /\ comp = "sinc_conv" /\ Ev.ev = "next"
          /\ IF AcceptConv
               THEN n' = n + 1 /\ HeapNote /\ UNCHANGED << comp, cf, hist, peak, skip >>
               ELSE Bad
+\* (the converter is gone afterwards: any further event of the execution is unknown, hence rejected)
+TTail == /\ comp = "sinc_conv" /\ Ev.ev = "tail"
+         /\ IF AcceptTail
+              THEN comp' = "none" /\ n' = n + Ev.a.m /\ HeapNote /\ UNCHANGED << cf, hist, peak, skip >>
+              ELSE Bad
 TLin == /\ comp = "sinc_lin" /\ Ev.ev = "step"
         /\ IF AcceptLin
              THEN /\ peak' = MaxAbs(MaxAbs(MaxAbs(peak, VF(Ev.a.va)), VF(Ev.a.vb)), VF(Ev.a.vab))
                   /\ n' = n + 1 /\ HeapNote /\ UNCHANGED << comp, cf, hist, skip >>
              ELSE Bad
 Known == \/ comp = "sinc" /\ Ev.ev \in {"push", "clear", "interp"}
-         \/ comp = "sinc_conv" /\ Ev.ev = "next"
+         \/ comp = "sinc_conv" /\ Ev.ev \in {"next", "tail"}
          \/ comp = "sinc_lin" /\ Ev.ev = "step"
 TUnknown == ~Known /\ Bad
 
 TOp == /\ Consume /\ Ev.ev # "reset" /\ ~skip
-       /\ (TPush \/ TClear \/ TInterp \/ TConv \/ TLin \/ TUnknown)
+       /\ (TPush \/ TClear \/ TInterp \/ TConv \/ TTail \/ TLin \/ TUnknown)
 TSkip == Consume /\ Ev.ev # "reset" /\ skip /\ UNCHANGED << comp, cf, hist, peak, n, skip >>
 
 TraceInit == l = 1 /\ comp = "none" /\ cf = Cf0 /\ hist = << >> /\ peak = DZero /\ n = 0 /\ skip = TRUE
